@@ -388,8 +388,10 @@ Load_vfile(HFILEID f /* IN: file handle */)
 
         /* get the header information */
         v->vg = VPgetinfo(f, ref);
-        if (v->vg == NULL)
+        if (v->vg == NULL) {
+            Hendaccess(aid); /* do not leave the scan's access element attached to the file */
             HGOTO_ERROR(DFE_INTERNAL, FAIL);
+        }
 
         /* insert the vg instance in B-tree */
         tbbtdins(vf->vgtree, (void *)v, NULL);
@@ -432,8 +434,10 @@ Load_vfile(HFILEID f /* IN: file handle */)
 
         /* get the header information */
         w->vs = VSPgetinfo(f, ref);
-        if (w->vs == NULL)
+        if (w->vs == NULL) {
+            Hendaccess(aid); /* do not leave the scan's access element attached to the file */
             HGOTO_ERROR(DFE_INTERNAL, FAIL);
+        }
 
         w->nattach   = 0;
         w->nvertices = 0;
